@@ -29,7 +29,7 @@ Rebased(i, l, n, N) == Offset(i, n, N) + l
 
 VARIABLE g
 Counts == IF Q THEN {0, 1, 2, 3, 5, 7, 8, 9, 16, 17, 40} ELSE 0..MaxSeries
-Init == g \in [n : Counts, N : 1..MaxShards, q : 1..24, win : {"instant", "range"}]
+Init == g \in [n : Counts, N : 1..MaxShards, q : 1..27, win : {"instant", "range", "late"}]
 Next == UNCHANGED g
 
 Partition == /\ UNION {Shard(i, g.n, g.N) : i \in 0..(g.N - 1)} = 0..(g.n - 1)
@@ -41,8 +41,8 @@ Digit(k) == <<"0","1","2","3","4","5","6","7","8","9">>[k + 1]
 Name(k) == IF k < 10 THEN Digit(k) ELSE Digit(k \div 10) \o Digit(k % 10)
 AVal(k) == <<"x", "y", "z">>[(k % 3) + 1]
 Data(n) == [k \in 1..n |-> Series(<< <<"__name__","m">>, <<"a", AVal(k)>>, <<"i", Name(k)>> >>,
-                                  [u \in 1..14 |-> Smp(u - 1, IF (k + u) % 11 = 0 THEN "s" ELSE "f", 100 * k + u)])]
-           \o [k \in 1..(IF n > 3 THEN 3 ELSE n) |-> Series(<< <<"__name__","n">>, <<"a", AVal(k)>> >>, [u \in 1..14 |-> Smp(u - 1, "f", k + 1)])]
+                                  [u \in 1..44 |-> Smp(u - 1, IF (k + u) % 11 = 0 THEN "s" ELSE "f", 100 * k + u)])]
+           \o [k \in 1..(IF n > 3 THEN 3 ELSE n) |-> Series(<< <<"__name__","n">>, <<"a", AVal(k)>> >>, [u \in 1..44 |-> Smp(u - 1, "f", k + 1)])]
 M == <<Sel(<<Metric("m")>>)>>
 N2 == <<Sel(<<Metric("n")>>)>>
 Basket == <<
@@ -59,9 +59,14 @@ Basket == <<
   <<SelAt(<<Metric("m")>>, 0, "lit", 5)>>, Over(<<SelAt(<<Metric("m")>>, 1, "end", 0)>>, LAMBDA c : Agg("sum", TRUE, <<"a">>, <<c>>)),
   Join(<<NumS("0.5")>>, M, LAMBDA a, b : Agg("quantile", TRUE, <<"a">>, <<a, b>>)),
   Over(M, LAMBDA c : Agg("stddev", TRUE, <<>>, <<c>>)), Over(Over(M, LAMBDA c : Agg("sum", TRUE, <<"a", "i">>, <<c>>)), LAMBDA c : Agg("max", TRUE, <<"a">>, <<c>>)),
-  Join(M, <<Sel(<<Metric("m"), Eq("a", "x")>>)>>, LAMBDA a, b : Bin("-", a, b)) >>
+  Join(M, <<Sel(<<Metric("m"), Eq("a", "x")>>)>>, LAMBDA a, b : Bin("-", a, b)),
+  \* long windows over dense data: more samples per window than any initial buffer holds, windows that overlap
+  <<RFn("sum_over_time", <<Metric("m")>>, 25, 0, "none", 0)>>, <<RFn("rate", <<Metric("m")>>, 30, 1, "none", 0)>>,
+  Over(<<RFn("max_over_time", <<Metric("m")>>, 20, 0, "none", 0)>>, LAMBDA c : Agg("sum", TRUE, <<"a">>, <<c>>)) >>
 
-ScnOf(x) == Scn("shard", "C11", TickMs, Data(x.n), Basket[x.q], 2, IF x.win = "instant" THEN 2 ELSE 13, IF x.win = "instant" THEN 0 ELSE 1, 2, 0)
+\* "late": 12 steps from tick 30 on (the long windows are full there)
+ScnOf(x) == Scn("shard", "C11", TickMs, Data(x.n), Basket[x.q], IF x.win = "late" THEN 30 ELSE 2, IF x.win = "instant" THEN 2 ELSE IF x.win = "range" THEN 13 ELSE 41,
+                IF x.win = "instant" THEN 0 ELSE 1, 2, 0)
 \* one scenario per (n, query, window): N only matters for the model-level laws
-EmitShard == IF g.N = 1 /\ (g.n * 7 + g.q * 3 + (IF g.win = "instant" THEN 0 ELSE 1)) % Mod = Seed % Mod THEN Emit(ScnOf(g)) ELSE TRUE
+EmitShard == IF g.N = 1 /\ (g.n * 7 + g.q * 3 + (IF g.win = "instant" THEN 0 ELSE IF g.win = "range" THEN 1 ELSE 2)) % Mod = Seed % Mod THEN Emit(ScnOf(g)) ELSE TRUE
 =============================================================================
